@@ -11,6 +11,7 @@ from vmon import env  # noqa: F401
 from vmon.simkit import Top, Mon, simulate, bits, biased_bits, reset_plan, drive_reset
 
 from amaranth import Shape, Value, unsigned, signed
+from amaranth.lib import data
 from amaranth.lib import enum as am_enum
 
 from amaranth_soc import csr
@@ -50,6 +51,10 @@ def mk_shape(desc):
         return signed(w)
     if kind == "r":
         return range(w[0], w[1])
+    if kind == "a":
+        return data.ArrayLayout(unsigned(w[0]), w[1])
+    if kind == "st":
+        return data.StructLayout({f"m{i}": unsigned(x) for i, x in enumerate(w)})
     return SHAPES[kind]
 
 
@@ -57,6 +62,10 @@ def shape_width(desc):
     kind, w = desc
     if kind == "r":
         return Shape.cast(range(w[0], w[1])).width
+    if kind == "a":
+        return w[0] * w[1]
+    if kind == "st":
+        return sum(w)
     return {"e2": 2, "e3": 3}.get(kind, w)
 
 
@@ -73,6 +82,10 @@ def gen_case(rng, tier, idx):
         shape = ("u", rng.choice([0, 1, 1, 2, 2, 3, 3, 4, 5, 6, 7, 8]))
     elif r < 0.74:
         shape = ("s", rng.randint(1, 8))
+    elif r < 0.77:
+        # aggregate shapes (lib.data layouts): an array of multi-bit lanes, a struct of unequal members
+        shape = rng.choice([("a", [rng.choice([1, 2, 3]), rng.choice([1, 2, 3])]),
+                            ("st", [rng.choice([1, 2, 3]) for _ in range(rng.choice([1, 2, 3]))])])
     elif r < 0.8:
         # a Python range containing 0 (so that the documented default init of 0 is legal), often with a negative start
         shape = ("r", [rng.choice([0, -1, -2, -4, -5, -8]), rng.choice([1, 2, 3, 4, 8, 9])])
@@ -99,6 +112,14 @@ def init_value(desc, init_bits):
     if kind == "r":
         wid = shape_width(desc)
         return init_bits - (1 << wid) if (w[0] < 0 and init_bits >> (wid - 1)) else init_bits
+    if kind == "a":
+        return [(init_bits >> (i * w[0])) & ((1 << w[0]) - 1) for i in range(w[1])]
+    if kind == "st":
+        out, pos = {}, 0
+        for i, x in enumerate(w):
+            out[f"m{i}"] = (init_bits >> pos) & ((1 << x) - 1)
+            pos += x
+        return out
     if kind in SHAPES:
         return SHAPES[kind](init_bits)
     return init_bits
